@@ -261,11 +261,38 @@ def run(ctx):
                 reqs.append(f"rmatch {c['rule']} {pos} {vlib.cps(s)}")
                 meta.append((c['rule'], pos, s))
     replies = vlib.run_model(reqs, timeout=ctx.n(180, 900))
+    import signal
+
+    class _Slow(Exception):
+        pass
+
+    def _alarm(signum, frame):
+        raise _Slow()
+    old_handler = signal.signal(signal.SIGALRM, _alarm)
+    slow = 0
     for (i, pos, s), r in zip(meta, replies):
-        mine = impl.rmatch_dump(i, pos, s)
+        # one match attempt of one rule on a SHORT pump (at most 12 repetitions) under a time limit: sre checks for signals
+        # while it backtracks; an attempt that does not finish is the attack string itself
+        try:
+            signal.setitimer(signal.ITIMER_REAL, 5.0)
+            mine = impl.rmatch_dump(i, pos, s)
+        except _Slow:
+            mine = 'SLOW'
+        finally:
+            signal.setitimer(signal.ITIMER_REAL, 0)
+        if mine == 'SLOW':
+            slow += 1
+            if slow <= 3:
+                res['failures'].append({'input': [ord(ch) for ch in s], 'rule': i, 'prefix': '', 'pump': s, 'n': 1, 'suffix': '',
+                                        'observed': 'one match attempt of rule %d at position %d on a %d-character text did not finish '
+                                                    'within 5 s' % (i, pos, len(s))})
+            if slow >= 3:
+                break
+            continue
         if mine != r:
             res['disagreements'].append({'stage': 'rmatch', 'rule': i, 'pos': pos, 'input': [ord(ch) for ch in s],
                                          'impl': mine, 'model': r})
+    signal.signal(signal.SIGALRM, old_handler)
     pumps = {(c['rule'], c['pump']) for c in cases}
     res.update({
         'evaluations': len(cases) + len(reqs),
